@@ -121,7 +121,37 @@ def getProperty (C : Codecs V P) (T : KindTable) (p : Props P) (k : Key) : Excep
   | .ok s => .ok (s k)
   | .error e => .error e
 
+/-- `<Element>.set_properties(k = ov)`: a fresh sliver with the one keyword applied (None included: the setter is
+called with None, which raises for `name`), written through `toProps` and merged.  A None value writes nothing, so
+this route does **not** unset. -/
+def setProperties1 (C : Codecs V P) (T : KindTable) (fresh : Fields V) (p : Props P) (k : Key) (ov : Option V) :
+    Except Err (Props P) :=
+  match ov, T.fromRows.find? (fun f => f.key == k) with
+  | none, some f => if f.noneOk then .ok (p.update (toProps C T (fresh.set k none))) else .error "type"
+  | _, _ => .ok (p.update (toProps C T (fresh.set k ov)))
+
+/-- `el.<attr> = ov` through the attribute route `r` of the generated route table -/
+def attrAssign (C : Codecs V P) (T : KindTable) (fresh : Fields V) (p : Props P) (r : AttrRoute) (ov : Option V) :
+    Except Err (Props P) :=
+  match r.form with
+  | .readOnly => .error "attribute"
+  | .imagePair =>
+    -- `set_properties(image_ref=value, image_type=self.get_property('image_type'))`
+    match getProperty C T p "image_type" with
+    | .error e => .error e
+    | .ok it => .ok (p.update (toProps C T ((fresh.set "image_ref" ov).set "image_type" it)))
+  | _ =>
+    match ov with
+    | none => unsetProperty p r.prop
+    | some v => .ok (setProperty C T fresh p r.prop v)
+
 end generic
+
+/-- the attribute routes of a kind's element class (generated) -/
+def routesOf (k : String) : List AttrRoute :=
+  match elemRoutes.find? (fun e => e.1 == k) with
+  | some e => e.2
+  | none => []
 
 /-! ### sliver trees and deep dictionaries -/
 
